@@ -809,6 +809,10 @@ func (f *FnVC) trCall(env *Env, x SCall) TV {
 			return TV{t, nil, a.Sort}
 		}
 		sfail("storeAt: first argument must be a ghost map")
+	case "sameType":
+		// sameType(a, b): two interface values have the same dynamic type
+		a, b := arg(0), arg(1)
+		return TV{sEq(sApp("typeof", a.T), sApp("typeof", b.T)), boolTy, "Bool"}
 	case "boxZero":
 		// boxZero(T): the interface value holding the zero value of T (e.g. an empty struct used as a context key)
 		if len(x.Args) != 1 {
